@@ -197,6 +197,8 @@ def main():
             env = base_env([seed, prop, s["name"], shard])
             if args.examples:
                 env["VERIF_EXAMPLES"] = str(args.examples)
+            if s["mode"] == "cgfuzz":
+                env["VERIF_CGFUZZ"] = "1"
             jobs.append((cmd, env, outfile))
     timeout = 900 if tier == "quick" else 4 * 3600
     results = run_procs(jobs, timeout)
